@@ -102,7 +102,7 @@ func (h *Handler) findOrCreate(clientID []byte, mac net.HardwareAddr, name strin
 			String("from", lease.subnet.LAN.String()).String("to", subnet.LAN.String()).Write()
 	}
 
-	replaced := lease != nil && lease.State == StateAllocated // the previous binding of this client is dropped
+	replaced := lease != nil && (lease.State == StateAllocated || (lease.State == StateDiscover && lease.Addr.IP.IsValid())) // the previous binding of this client (also one it held while negotiating again) is dropped
 	lease = &Lease{}
 	lease.ClientID = packet.CopyBytes(clientID)
 	lease.State = StateFree
